@@ -68,9 +68,12 @@ class ScriptedPolicy(pythia.Policy):
         ns, key = CELLS[cell]
         if v == 'inc':
           # a stateful algorithm: the next state is computed from the state the service handed to it with the request
-          cur = request.study_config.metadata.abs_ns(vz.Namespace.decode(ns)).get(key, None)
+          try:
+            cur = request.study_config.metadata.abs_ns(vz.Namespace.decode(ns)).get(key, None)
+          except Exception:          # pylint: disable=broad-except  (a protobuf-valued entry: not 'v1')
+            cur = None
           v = 'v2' if cur == 'v1' else 'v1'
-        delta.on_study.abs_ns(vz.Namespace.decode(ns))[key] = v
+        delta.on_study.abs_ns(vz.Namespace.decode(ns))[key] = _proto_of(v) if v in ('pa', 'pz') else v
     return pythia.SuggestDecision([vz.TrialSuggestion({'x': PARAMS[p]}) for p in e['ps']], delta)
 
   def early_stop(self, request):
@@ -142,6 +145,32 @@ def err_class(e):
   return 'Unknown:' + type(e).__name__
 
 
+# protobuf-valued metadata: the tokens "pa" / "pz" stand for a Duration of 3 s and for a DEFAULT Duration (an Any whose
+# value bytes are empty: what MergeFrom-style merging silently skips)
+def _proto_of(tok):
+  from google.protobuf import duration_pb2
+  return duration_pb2.Duration(seconds=3) if tok == 'pa' else duration_pb2.Duration()
+
+
+def _kv(ns, key, v):
+  if v in ('pa', 'pz'):
+    kv = key_value_pb2.KeyValue(ns=ns, key=key)
+    kv.proto.Pack(_proto_of(v))
+    return kv
+  return key_value_pb2.KeyValue(ns=ns, key=key, value=v)
+
+
+def _token_of_proto(any_msg):
+  from google.protobuf import duration_pb2
+  d = duration_pb2.Duration()
+  try:
+    if any_msg.Unpack(d):
+      return 'pa' if d.seconds == 3 and d.nanos == 0 else ('pz' if d.seconds == 0 and d.nanos == 0 else 'proto:other-duration')
+  except Exception:  # pylint: disable=broad-except
+    pass
+  return 'proto:' + any_msg.type_url
+
+
 def proj_meta(kvs, cells):
   out = {c: 'None' for c in cells}
   extra = []
@@ -149,7 +178,7 @@ def proj_meta(kvs, cells):
     hit = False
     for c in cells:
       if (kv.ns, kv.key) == CELLS[c]:
-        out[c] = kv.value if not kv.HasField('proto') else 'proto:' + kv.proto.type_url
+        out[c] = kv.value if not kv.HasField('proto') else _token_of_proto(kv.proto)
         hit = True
     if not hit:
       extra.append((kv.ns, kv.key))
@@ -397,12 +426,12 @@ class World:
       req = vs.UpdateMetadataRequest(name=self.sname(s))
       for cell, v in d['study'].items():
         if v != 'None':
-          req.delta.add(metadatum=key_value_pb2.KeyValue(ns=CELLS[cell][0], key=CELLS[cell][1], value=v))
+          req.delta.add(metadatum=_kv(CELLS[cell][0], CELLS[cell][1], v))
       for tid in (d['t'], d.get('t2', 0)):
         if tid != 0:
           for cell, v in d['trial'].items():
             if v != 'None':
-              req.delta.add(trial_id=str(tid) if tid > 0 else '0', metadatum=key_value_pb2.KeyValue(ns=CELLS[cell][0], key=CELLS[cell][1], value=v))
+              req.delta.add(trial_id=str(tid) if tid > 0 else '0', metadatum=_kv(CELLS[cell][0], CELLS[cell][1], v))
       r = api.UpdateMetadata(req)
       return 'ErrorDetails' if r.error_details else 'Empty'
     if rpc == 'ListOptimalTrials':
